@@ -33,6 +33,7 @@ import (
 	"github.com/sourcenetwork/defradb/crypto"
 	"github.com/sourcenetwork/defradb/event"
 	coreblock "github.com/sourcenetwork/defradb/internal/core/block"
+	"github.com/sourcenetwork/defradb/internal/core/crdt"
 	"github.com/sourcenetwork/defradb/internal/datastore"
 	"github.com/sourcenetwork/defradb/internal/db"
 	"github.com/sourcenetwork/defradb/internal/encryption"
@@ -96,7 +97,7 @@ func c12Histories() []c12Hist {
 }
 
 type c12Stats struct {
-	controls, signedBlocks, verifyOK, verifyOtherKey, tamperings, tamperVerify, received, unsignedBlocks int64
+	ancestors, controls, signedBlocks, verifyOK, verifyOtherKey, tamperings, tamperVerify, received, unsignedBlocks int64
 	kinds                                                                                 sync.Map
 }
 
@@ -341,6 +342,7 @@ func runC12(args []string) int {
 	r.Coverage["tampered_verifications_under_every_key"] = st.tamperVerify
 	r.Coverage["tampered_blocks_fed_to_receive_path"] = st.received
 	r.Coverage["untampered_control_deliveries_accepted"] = st.controls
+	r.Coverage["forged_ancestor_deliveries"] = st.ancestors
 	r.Coverage["exhaustive"] = true
 	r.Assumptions = []string{
 		"cryptographic strength of ECDSA/EdDSA is trusted; multi-field tampering is outside",
@@ -555,6 +557,60 @@ func c12Job(ctx context.Context, r *rep.Run, st *c12Stats, idents []identity.Ful
 			// oracle 2: the receive path rejects it and nothing changes
 			if kind != "composite" {
 				continue // only composites are pushed; field blocks arrive as links (covered by "link replaced")
+			}
+			// a forged ancestor below a head that the attacker signed with its own (valid) key: the head
+			// verifies, the linked forged block must not; delivered twice
+			if t.Sig == nil && (t.Kind == "delta.priority+1" || t.Kind == "delta.status (delete flag)" || strings.HasPrefix(t.Kind, "head re")) {
+				attacker := idents[(author+1)%len(idents)]
+				head := &coreblock.Block{Delta: crdt.CRDT{DocCompositeDelta: &crdt.DocCompositeDelta{
+					DocID: b.b.Delta.DocCompositeDelta.DocID, Priority: t.Block.Delta.GetPriority() + 1,
+					SchemaVersionID: b.b.Delta.DocCompositeDelta.SchemaVersionID}},
+					Heads: []cidlink.Link{{Cid: tc}}}
+				toSign, err := head.Marshal()
+				if err != nil {
+					return err
+				}
+				sigVal, err := attacker.PrivateKey().Sign(toSign)
+				if err != nil {
+					return err
+				}
+				sigType := coreblock.SignatureTypeECDSA256K
+				if attacker.PrivateKey().Type() == crypto.KeyTypeEd25519 {
+					sigType = coreblock.SignatureTypeEd25519
+				}
+				asig := &coreblock.Signature{Header: coreblock.SignatureHeader{Type: sigType, Identity: []byte(attacker.PublicKey().String())}, Value: sigVal}
+				araw, err := asig.Marshal()
+				if err != nil {
+					return err
+				}
+				acid, err := crdtx.CidOfBlock(araw)
+				if err != nil {
+					return err
+				}
+				putRaw(a.st, crdtx.BlockKey(acid), araw)
+				head.Signature = &cidlink.Link{Cid: acid}
+				hraw, err := head.Marshal()
+				if err != nil {
+					return err
+				}
+				hcid, err := crdtx.CidOfBlock(hraw)
+				if err != nil {
+					return err
+				}
+				putRaw(a.st, crdtx.BlockKey(hcid), hraw)
+				hsn := a.st.Snapshot()
+				rc.st.Restore(prepared)
+				for round := 1; round <= 2; round++ {
+					atomic.AddInt64(&st.received, 1)
+					atomic.AddInt64(&st.ancestors, 1)
+					herr := deliver(rc, hsn, hcid)
+					if herr == nil || c12Dump(rc) != before {
+						r.Violation(rep.Violation{Fingerprint: fmt.Sprintf("C12:forged-ancestor-below-a-validly-signed-head-accepted:delivery-%d:%s", round, t.Kind),
+							Summary: fmt.Sprintf("%s %s: forged copy of %s (%s) below a head signed by another identity: delivery %d returned %v; receiver state changed: %v", keyType, h.Name, b.c, t.Kind, round, herr, c12Dump(rc) != before),
+							Replay:  info})
+						break
+					}
+				}
 			}
 			rc.st.Restore(prepared)
 			atomic.AddInt64(&st.received, 1)
